@@ -29,12 +29,14 @@ where
     }
 
     fn map2_to_curve(p1: &PtT::Base, p2: &PtT::Base) -> PtT {
-        let mut p = {
-            let mut tmp = PtT::osswu_map(p1);
-            tmp.add_assign(&PtT::osswu_map(p2));
-            tmp
-        };
+        // The SSWU images lie on the isogenous curve (a != 0), whose group law is NOT the
+        // one implemented by `add_assign` (the doubling branch assumes a = 0). Map each image
+        // to the target curve first and add there, as RFC 9380 prescribes.
+        let mut p = PtT::osswu_map(p1);
         p.isogeny_map();
+        let mut q = PtT::osswu_map(p2);
+        q.isogeny_map();
+        p.add_assign(&q);
         p.clear_h();
         debug_assert!(p.into_affine().in_subgroup());
         p
